@@ -1,0 +1,47 @@
+/* Verification hooks (compiled in only with -DMUSCLE_VERIF_HOOKS; see the verification project's DESIGN.md, section 3.5).
+ *
+ * A single process-global function pointer.  While it is NULL (the default) every hook site is one predictable
+ * branch and the library behaves exactly as without the hooks.  A test harness may install a function that turns
+ * the real threads of the process into a deterministic, cooperatively scheduled interleaving: the function is
+ * called on the calling thread *before* the operation named by (kind) is performed on the object (obj), and it
+ * may block the calling thread until the harness's schedule says that the operation is to happen now.
+ *
+ * Return value: 0 = proceed normally.  Only MUSCLE_VH_WC_WAIT gives other values a meaning:
+ *   1 = "the time-out fires now": WaitCondition::Wait() returns B_TIMED_OUT without waiting;
+ *   2 = "proceed as notified":   WaitCondition::Wait() takes the untimed path (a notification is pending, so
+ *                                it does not block) and never consults the real clock.
+ * For MUSCLE_VH_SIG_WAIT: 1 = time-out fires now (the multiplexer is polled with time-out 0),
+ *                         2 = proceed as signalled (the multiplexer waits without time-out; a byte is pending).
+ */
+
+#ifndef MuscleVerifHooks_h
+#define MuscleVerifHooks_h
+
+#ifdef MUSCLE_VERIF_HOOKS
+
+enum {
+   MUSCLE_VH_MUTEX_LOCK = 1,   /* obj = the Mutex,         arg = 0             (before _locker.lock())            */
+   MUSCLE_VH_MUTEX_TRYLOCK,    /* obj = the Mutex,         arg = 0             (before _locker.try_lock())        */
+   MUSCLE_VH_MUTEX_UNLOCK,     /* obj = the Mutex,         arg = 0             (before _locker.unlock())          */
+   MUSCLE_VH_WC_WAIT,          /* obj = the WaitCondition, arg = 1 iff a finite wake-up time was given (see above) */
+   MUSCLE_VH_WC_NOTIFY,        /* obj = the WaitCondition, arg = increaseBy    (before the counter is increased)  */
+   MUSCLE_VH_ATOMIC_INC,       /* obj = the AtomicCounter, arg = 0             (before the increment)             */
+   MUSCLE_VH_ATOMIC_DEC,       /* obj = the AtomicCounter, arg = 0             (before the decrement)             */
+   MUSCLE_VH_THREAD_START,     /* obj = the Thread,        arg = 0             (first action of the new thread)   */
+   MUSCLE_VH_THREAD_EXIT,      /* obj = the Thread,        arg = 0             (last action of the thread)        */
+   MUSCLE_VH_THREAD_JOIN,      /* obj = the Thread,        arg = 0             (before join, in the joining thread) */
+   MUSCLE_VH_SIG_SEND,         /* obj = the Thread,        arg = index of the side that will be woken (before the signal byte is sent) */
+   MUSCLE_VH_SIG_WAIT,         /* obj = the Thread,        arg = 2*(index of the waiting side) + (1 iff a finite wake-up time was given) (see above) */
+   MUSCLE_VH_THREAD_SPAWN,     /* obj = the Thread,        arg = 0             (in the parent, before the thread is created) */
+   MUSCLE_VH_SIG_DRAIN,        /* obj = the Thread,        arg = side index    (before pending signal bytes are absorbed) */
+   MUSCLE_NUM_VH_KINDS
+};
+
+extern "C" int (*muscle_verif_hook)(int kind, const void * obj, long arg);
+
+/* Convenience: evaluates to the hook's result, or to 0 when no hook is installed */
+#define MUSCLE_VERIF_HOOK(kind, obj, arg) ((muscle_verif_hook != 0) ? muscle_verif_hook((kind), (obj), (long)(arg)) : 0)
+
+#endif  /* MUSCLE_VERIF_HOOKS */
+
+#endif
